@@ -15,6 +15,7 @@ import PyGqlModel.Lemmas.SpanShiftDoc
 import PyGqlModel.Lemmas.SpanWfDoc
 import PyGqlModel.Lemmas.SpanVals
 import PyGqlModel.Lemmas.SpanValsTS
+import PyGqlModel.Lemmas.SpanTypes
 namespace PyGql.Props.C02
 open PyGql PyGql.Ast PyGql.Parse PyGql.Spec PyGql.Props.C01
 open PyGql.Spec.Lexical (Tiles slice eofT)
@@ -127,6 +128,21 @@ theorem span_reparse_value_all (fl : Flags) (s : Text) (d : Document) (h : parse
   obtain ⟨hs, hwf⟩ := definition_vals fl x w hw
   exact span_reparse_doc_value fl s d h x hx w hs (hwf wfx) a b hloc
 
+/-- ALL documents, no side hypothesis: every type node of every definition (`Definition.types`: the types of variable
+    definitions, of field / argument / input-field definitions with every type nested in them; the named types of type
+    conditions, `implements` lists, union members and operation types, read as `Type`) is what `parse_type` returns for the
+    characters inside its span, modulo the offset. -/
+theorem span_reparse_type_all (fl : Flags) (s : Text) (d : Document) (h : parseText fl s = some d) :
+    ∀ x ∈ d.definitions, ∀ w ∈ x.types, ∀ a b, w.loc = some (a, b) →
+      a ≤ b ∧ b ≤ s.length ∧ parseTypeText fl (slice s a b) = some (w.mapLoc (locDown a)) := by
+  intro x hx w hw a b hloc
+  obtain ⟨_, _, wf, _⟩ := (parse_text_result_partial fl s d).1 h
+  have wfx : wfDefinition fl x = true := by
+    simp only [wfDocument, Bool.and_eq_true, List.all_eq_true] at wf
+    exact (wf.2 x hx).1
+  obtain ⟨hs, hwf⟩ := definition_types fl x w hw
+  exact span_reparse_doc_type fl s d h x hx w hs (hwf wfx) a b hloc
+
 theorem definitionV_node (x : Definition) : ∃ is, definitionV x = .node x.loc is := by
   cases x with
   | operation o => simp only [definitionV, operationV, Definition.loc]; split <;> exact ⟨_, rfl⟩
@@ -190,6 +206,13 @@ example : (parseValueText {} (slice doc 5 8)).map (fun v => v.subs.map Value.loc
 example : (match theDoc.definitions with
     | [.operation o] => o.vals.map Value.loc
     | _ => []) = [some (5, 8), some (6, 7)] := by decide
+
+/-- `span_reparse_type_all` is not vacuous: `query($v:[A!]){a}` has the type nodes `[A!]` (9,13), `A!` (10,12), `A` (10,11) -/
+private def tdoc : Text := [113, 117, 101, 114, 121, 40, 36, 118, 58, 91, 65, 33, 93, 41, 123, 97, 125]
+example : (parseText {} tdoc).map (fun d => d.definitions.map (fun x => x.types.map TypeRef.loc)) =
+    some [[some (9, 13), some (10, 12), some (10, 11)]] := by decide
+example : (parseTypeText {} (slice tdoc 10 12)).map (fun t => t.subs.map TypeRef.loc) = some [some (0, 2), some (0, 1)] := by
+  decide
 
 /-- `{a} {b}`: the second definition spans (4,7); its text `{b}` parses to one definition spanning (0,3) in a document (0,3) -/
 private def two : Text := [123, 97, 125, 32, 123, 98, 125]
